@@ -172,6 +172,8 @@ func cliCheckMain(args []string) int {
 			case "both":
 				os.WriteFile(filepath.Join(dirA, "prog.vore"), []byte(prog), 0o644)
 				argv = append(argv, "-src", "prog.vore", "-com", prog)
+			case "srcmissing":
+				argv = append(argv, "-src", "nosuchprogram.vore")
 			}
 			glob := ""
 			switch nstr(cfg, "files") {
